@@ -278,4 +278,17 @@ theorem C13_generated_emission_step_is_the_model (prev dec : Int) :
   simp only [hq, bind, Option.bind, Option.getD]
   by_cases h : Dec.trunc (Dec.sub (Dec.ofInt prev) q) < 0 <;> simp [h]
 
+/-- The three share computations at the head of `mintStaker`, `mintDevGrants` and
+`mintStorageProviderStipend`, translated from x/jklmint/keeper/mint.go on every run, are the model's
+`share` of the respective ratio parameter — `NewDec(ratio).QuoInt64(100).MulInt64(m).TruncateInt64()`,
+exact decimal arithmetic, no `int64` product that could wrap. -/
+theorem C13_generated_shares_are_the_model (ratio m : Int) (denom : String) :
+    Generated.Pure.mintStaker ratio m denom = share ratio m ∧
+    Generated.Pure.mintDevGrants ratio m denom = share ratio m ∧
+    Generated.Pure.mintStorageProviderStipend ratio m denom = share ratio m ∧
+    Generated.Pure.mintStaker_inputs = ["params.StakerRatio"] ∧
+    Generated.Pure.mintDevGrants_inputs = ["params.DevGrantsRatio"] ∧
+    Generated.Pure.mintStorageProviderStipend_inputs = ["params.StorageProviderRatio"] :=
+  ⟨rfl, rfl, rfl, rfl, rfl, rfl⟩
+
 end Canine.Mint
